@@ -216,10 +216,12 @@ def mechanism(hist, k, name):
     for back in range(k, 0, -1):
         p, d = hist[back]
         below = progs.reaches(p, idx) | {idx}
-        if (d.get("node") in below) or (d.get("var") is not None and any(progs.uses_var(p, j, d["var"]) for j in below)):
+        grp = {d.get("node")} | {j for j, o in enumerate(p["nodes"]) if o.get("of") == d.get("node") and o["kind"] == "product"}
+        if (d.get("node") is not None and grp & below) or (d.get("var") is not None and any(progs.uses_var(p, j, d["var"]) for j in below)):
             tk = p["nodes"][d["node"]]["kind"] if d.get("node") is not None else "variable"
             return "edit '%s' of a %s" % (d["kind"], {"memento": "memento function", "plain": "plain helper",
-                                                      "wrapped": "decorator-wrapped helper", "lambda": "module-level lambda"}.get(tk, tk))
+                                                      "wrapped": "decorator-wrapped helper", "lambda": "module-level lambda",
+                                                      "product": "factory-made helper"}.get(tk, tk))
     return "no edit beneath it"
 
 
